@@ -600,6 +600,28 @@ def constructed_objects(ctx, report):
                         report.add('C02.R3', '%s@converter[%s]' % (c.resolve('_parse').construct, fld.name),
                                    'the text parsed as %s reaches %s.%s through %s(), which returns undecodable text unchanged; the instance_of validator then '
                                    'raises TypeError inside the generated __init__' % (src.key, k.name, fld.name, fld.converter_node.func.id))
+                # a factory that answers with one of several classes (ipaddress.ip_network: IPv4Network or IPv6Network, whichever the text
+                # spells) in front of an instance_of validator that admits fewer: the text of the other family is converted without error
+                # and the validator raises TypeError inside the generated __init__
+                if src is not None and fld.validator_node is not None:
+                    applied_fn = next((x for x in (src.op.args.get('item_class'), src.op.args.get('converter')) if x is not None), None)
+                    shown = show(applied_fn) if applied_fn is not None else ''
+                    for factory, classes in external_table().get('returns', {}).items():
+                        if factory not in shown:
+                            continue
+                        admitted = set()
+                        for call in ast.walk(fld.validator_node):
+                            if isinstance(call, ast.Call) and ast.unparse(call.func).endswith('instance_of'):
+                                for a in call.args:
+                                    for e in (a.elts if isinstance(a, (ast.Tuple, ast.List)) else [a]):
+                                        admitted.add(dotted(e) or ast.unparse(e))
+                        missing = [k for k in classes if k not in admitted and k.split('.')[-1] not in admitted]
+                        if admitted and missing:
+                            report.add('C02.R3', '%s@factory[%s]' % (c.resolve('_parse').construct, fld.name),
+                                       'the text parsed as %s is converted by %s, which also answers with %s; %s.%s admits %s only: the validator raises '
+                                       'TypeError inside the generated __init__ for the other spelling' % (
+                                           src.key, factory, ' / '.join(x.split('.')[-1] for x in missing), k.name, fld.name,
+                                           ' / '.join(sorted(x.split('.')[-1] for x in admitted))))
                 if src is not None and src.op.prim == 'parse_timestamp':
                     optional = isinstance(val, ValidatorV) and val.kind == 'optional'
                     if isinstance(val, ValidatorV) and val.kind == 'instance_of' and not optional:
